@@ -28,32 +28,32 @@ claim('C12', 'comparison-formula extraction (normalised relation + operand prove
       'prefix-range move, so handling one participant cannot lose what is remembered about another. Behaviour over real time (cleanup period granularity) is not decided.',
       'rustc front end + MIR; mirfacts; std Instant / mio timer semantics.',
       'DESIGN.md section 4 C12')
-claim('C20', 'role-pair comparison consistency (normalised S?B relations over provenance terms) + must-pass-through path rules on MIR; state pairing of the async wait future',
-      'Also decided: the async wait never returns Pending with its placeholder state Done left in place. Decides the structural necessary conditions: every comparison between the inclusive last-written sequence number and an exclusive acked-before frontier in '
+claim('C20', 'role-pair comparison consistency (normalised S?B relations over provenance terms) + must-pass-through path rules on MIR; state pairing of the async wait future; result table of the async wait future',
+      'Also decided: the async wait reports Ready(Ok(true)) exactly in state Done or on the completion token, and Ok(false) when the completion stream ended unanswered. Also decided: the async wait never returns Pending with its placeholder state Done left in place. Decides the structural necessary conditions: every comparison between the inclusive last-written sequence number and an exclusive acked-before frontier in '
       'rtps::writer has the same strictness (S < B acked / S >= B pending); the pending set holds reliable proxies only and an empty one completes at once; '
       'reader loss and every ACKNACK reach the waiter; the sync wait registers before sending and reports success only on the completion token; the async '
       'future has no bare Pending. The timeout duration and promptness as durations are not decided.',
       'rustc front end + MIR; mirfacts; role table (S: last_seq, wait_until; B: all_acked_before, reader_sn_state.base(), acked_before) taken from the field comments.',
       'DESIGN.md section 4 C20')
 
-claim('C17', 'gating analysis: dominance / edge-cut rules over the call graph and CFGs of the security-feature MIR, decision-tree reconstruction of the exemption match',
-      'Decides for all paths (all inputs) that plaintext cannot reach a Reader/Writer delivery sink past a required protection level: the rtps-level flag is decided afresh '
+claim('C17', 'gating analysis: dominance / edge-cut rules over the call graph and CFGs of the security-feature MIR, decision-tree reconstruction of the exemption match; the converse path rule (accepted traffic is handed on) and the destination-filter decision table',
+      'Also decided: once a gate answered "not protected" / "handle confirmed", every path hands the submessage on (unprotected topics keep working), and a submessage is dropped as "not for this participant" exactly when its destination is neither this participant nor UNKNOWN. Decides for all paths (all inputs) that plaintext cannot reach a Reader/Writer delivery sink past a required protection level: the rtps-level flag is decided afresh '
       'per message and cleared only under {no plugins, successful message decode, domain not rtps-protected}; both submessage handlers test it and exempt exactly the three '
       'bootstrap entities (reconstructed byte-wise from the lowered match and compared with the EntityId constants); every hand-over is under the submessage-level gate; '
       'the payload reaches the Reader only as the Ok value of decode_serialized_payload; the not-protected sets are filled only under !is_*_protected.',
       'rustc front end + MIR (security feature set); mirfacts; std Option/Result::map semantics; governance attributes correct (C18); crypto plugin verifies (C16).',
       'DESIGN.md section 4 C17')
 
-claim('C16', 'must-pass-through (edge-cut with infeasible-edge pruning) and result-use rules on the security-feature MIR; provenance of the key-id comparison and of the payload framing; approved-endpoint list provenance; clear-text header binding (dominating whole-value equality + derive/constructor facts)',
-      'Also decided: with message-level protection every Success lies behind InfoSource::from(clear-text header) == protected InfoSource (derived equality over version, vendor and prefix). Also decided: the endpoint list of a decoded submessage derives from the key-id lookup and the receiver-specific MAC filter. Also decided: the header key id is compared on the single key material selected for the scope; the payload framing/footer-location facts (F15, known finding: protected payloads of length not divisible by 4 are dropped). Decides that the builtin crypto plugin cannot release data without a successful verification: in the three decode functions every value that can be a success '
+claim('C16', 'must-pass-through (edge-cut with infeasible-edge pruning) and result-use rules on the security-feature MIR; provenance of the key-id comparison and of the payload framing; approved-endpoint list provenance; clear-text header binding (dominating whole-value equality + derive/constructor facts); mismatch-edge reachability for kind / key-id comparisons; push-before-next-parse path rule on the decrypted content',
+      'Also decided: the mismatch edge of every kind / key-id comparison of the three decode functions cannot reach a success, and every submessage parsed out of the decrypted content is part of the result. Also decided: with message-level protection every Success lies behind InfoSource::from(clear-text header) == protected InfoSource (derived equality over version, vendor and prefix). Also decided: the endpoint list of a decoded submessage derives from the key-id lookup and the receiver-specific MAC filter. Also decided: the header key id is compared on the single key material selected for the scope; the payload framing/footer-location facts (F15, known finding: protected payloads of length not divisible by 4 are dropped). Decides that the builtin crypto plugin cannot release data without a successful verification: in the three decode functions every value that can be a success '
       'in a GMAC/GCM arm is defined on the Ok continuation of validate_mac/decrypt; no verification result is discarded or defaulted; the receiver-specific MAC '
       'predicate is true only without a receiver-specific key or on a MAC verified under that key, and every caller gates success on it; header kind/key id are '
       'compared with the key material. That altered bytes fail verification is a property of AES-GCM/GMAC (ring) and is assumed.',
       'rustc front end + MIR (security feature set); mirfacts; ring AEAD; std Result::map/and_then/map_or_else semantics.',
       'DESIGN.md section 4 C16')
 
-claim('C18', 'provenance (value-is-verified chase through Result combinators), who-may-read, first-match shape rules; exhaustive abstract interpretation of the interval and entity-kind formulas; type-driven allow-list of instant-preserving timestamp conversions; whole-name subject equality',
-      'Also decided: subject names are compared by whole-name equality. Also decided: a zoned validity bound is converted only by instant-preserving operations. Decides: access-control XML is parsed only from the Ok value of SignedDocument::verify_signature (3 sites); the raw content is readable only by the verifier; verify_signature '
+claim('C18', 'provenance (value-is-verified chase through Result combinators), who-may-read, first-match shape rules; exhaustive abstract interpretation of the interval and entity-kind formulas; type-driven allow-list of instant-preserving timestamp conversions; whole-name subject equality; decision tables over the atoms of the applicability functions (all assignments)',
+      'Also decided: Criterion / Rule applicability, DataTag::check, check_participant_join and check_entity equal their reference boolean formulas for every assignment of their atoms (any / all / equality calls, entity kind). Also decided: subject names are compared by whole-name equality. Also decided: a zoned validity bound is converted only by instant-preserving operations. Decides: access-control XML is parsed only from the Ok value of SignedDocument::verify_signature (3 sites); the raw content is readable only by the verifier; verify_signature '
       'returns Ok only past the digest equality and the signature verification over that content; the four rule lookups take the first match of a forward iteration with the documented '
       'fallbacks (default_action, missing topic rule => protected); DomainIds::matches and the entity-kind/protection tables are compared exhaustively with their reference formulas; '
       'result = unprotected OR permitted. Glob/subject matching, XML parsing and the signature algorithm are assumed.',
@@ -68,16 +68,16 @@ claim('C19', 'pairing (swap-out / write-back on every exit a rejected message ca
       'rustc front end + MIR (security feature set); mirfacts; ring / x509 verification.',
       'DESIGN.md section 4 C19')
 
-claim('C11', 'who-may-write (field / map mutation sites), pairing and guard (edge-cut) rules on MIR',
-      'Decides the structural necessary conditions: total counters only grow (total += c under c > 0); every matched status takes current from len() of the match map after the '
+claim('C11', 'who-may-write (field / map mutation sites), pairing and guard (edge-cut) rules on MIR; store-aware must-call rule from discovery to the local endpoints (both feature configurations)',
+      'Also decided: a discovered remote endpoint reaches update_reader_proxy / update_writer_proxy of every local endpoint on the same topic on every feasible path (security: except on an incompatible-security verdict with plugins present). Decides the structural necessary conditions: total counters only grow (total += c under c > 0); every matched status takes current from len() of the match map after the '
       'mutation and total from the monotone counter, with agreeing changes; an unmatch status is sent exactly when the removed key was in the map; the maps are mutated only by the '
       'paired add/remove/detach-reattach functions (net-zero checked); incompatible QoS yields the incompatible-QoS status and no match; participant loss removes every endpoint of '
       'that participant and the event loop forwards losses to every local endpoint. Set equality with "currently announced" over discovery histories is not decided.',
       'rustc front end + MIR; mirfacts; BTreeMap semantics.',
       'DESIGN.md section 4 C11')
 
-claim('C01', 'provenance (origin terms with capture / getter resolution) and guard (edge-cut) rules on MIR; store-aware path evaluation with guard entailment for the NumberSet iterator; limit-after-order rule',
-      'Also decided: a bounded read cuts the selection after it was sorted by sequence number. Decides named necessary conditions of in-order, exactly-once, hole-free hand-over: the reliable window is exclusive on both ends with lower = read pointer and '
+claim('C01', 'provenance (origin terms with capture / getter resolution) and guard (edge-cut) rules on MIR; store-aware path evaluation with guard entailment for the NumberSet iterator; limit-after-order rule; bit-membership rule of the NumberSet iterator (tested word / mask = yielded index, one mask formula at all sites)',
+      'Also decided: the NumberSet iterator yields an index only after testing the bit of that very index, with the one mask formula insert and both iterator directions share. Also decided: a bounded read cuts the selection after it was sorted by sequence number. Decides named necessary conditions of in-order, exactly-once, hole-free hand-over: the reliable window is exclusive on both ends with lower = read pointer and '
       'upper = max(reliable marker, lower+1); the read pointer is advanced to exactly the change returned; the reliable marker is always the ack_base of the same writer\'s proxy; '
       'duplicates are dropped before the cache; CacheChange fields come from the delivering submessage; exclusive "..._before" bounds are decremented when used as inclusive range ends; the NumberSet iterator feeding GAP handling never yields a bit index >= num_bits '
       '(store-aware evaluation of every path of next/next_back). '
@@ -92,8 +92,8 @@ claim('C03', 'who-may-write + guard rules on the acknowledgment frontier, proven
       'rustc front end + MIR; mirfacts.',
       'DESIGN.md section 4 C03')
 
-claim('C02', 'handler-completeness, drain-until-empty and timer re-arm pairing rules (edge cuts on MIR); role-pair comparison normalisation shared with C20; exclusive-bound discipline of GAP ranges (shared with C01/C03); who-may-call for the unsent bookkeeping',
-      'Also decided: a pushed sample stays in the unsent set until acknowledged (mark_change_sent only from the repair worker). Also decided: an exclusive gapList.base / HEARTBEAT.first used as the end of an inclusive range is decremented. Convergence over fault schedules is NOT decided. Decided structural necessary conditions: a received ACKNACK always reaches Writer::handle_ack_nack of the writer it names '
+claim('C02', 'handler-completeness, drain-until-empty and timer re-arm pairing rules (edge cuts on MIR); role-pair comparison normalisation shared with C20; exclusive-bound discipline of GAP ranges (shared with C01/C03); who-may-call for the unsent bookkeeping; decision table of the destination filter; request / repair rules shared with C03 and C04',
+      'Also decided: the MessageReceiver drops a submessage as "not for this participant" exactly when its destination prefix is neither that of this participant nor UNKNOWN (all four assignments of the two comparisons), so ACKNACKs and HEARTBEATs addressed to this participant reach the handlers; the ACKNACK base / request-goes-out / repair-worker rules of C03 and C04 are evaluated here too. Also decided: a pushed sample stays in the unsent set until acknowledged (mark_change_sent only from the repair worker). Also decided: an exclusive gapList.base / HEARTBEAT.first used as the end of an inclusive range is decremented. Convergence over fault schedules is NOT decided. Decided structural necessary conditions: a received ACKNACK always reaches Writer::handle_ack_nack of the writer it names '
       '(channel drained until empty); the Heartbeat and CacheCleaning arms always re-arm, the repair arms re-arm exactly while repair is pending; heartbeats are suppressed and repair '
       'switched off only under last-written < acked-before (for all readers); repair switches on with its timer armed; the reader answers every informative or non-final HEARTBEAT.',
       'rustc front end + MIR; mirfacts; mio timer semantics.',
@@ -106,8 +106,8 @@ claim('C04', 'guard dominance (edge cuts), provenance and who-may-prune rules on
       'rustc front end + MIR; mirfacts; BTreeSet semantics (insert => non-empty).',
       'DESIGN.md section 4 C04')
 
-claim('C05', 'guard (edge-cut) and provenance rules on the fragment assembler MIR; polynomial normal forms of sibling formulas (writer split vs reader placement, fragment counts, announced size vs sliceable bytes); every-fragment-recorded path rule',
-      'Also decided: every DATAFRAG handed to the assembler is recorded. Also decided (as agreement of sibling formulas on polynomial normal forms, not by computing bytes): the writer cuts fragment n as bytes (n-1)*fs .. min(n*fs, size) with the header fields it announces, the reader places it at the same offset, both sides count ceil(size/fs) fragments, and the announced size is the length of the object the slices are cut from. Byte-exact reassembly for every size / fragment size / order is a value property and is NOT decided. Decided: a sample is released only on is_complete() of the buffer '
+claim('C05', 'guard (edge-cut) and provenance rules on the fragment assembler MIR; polynomial normal forms of sibling formulas (writer split vs reader placement, fragment counts, announced size vs sliceable bytes); every-fragment-recorded path rule; copy window of the reassembly as a min-set of polynomials',
+      'Also decided: insert_frags copies exactly [start, min(start + payload length, buffer length)) with start = (starting_num-1)*fragment size, in any algebraic form. Also decided: every DATAFRAG handed to the assembler is recorded. Also decided (as agreement of sibling formulas on polynomial normal forms, not by computing bytes): the writer cuts fragment n as bytes (n-1)*fs .. min(n*fs, size) with the header fields it announces, the reader places it at the same offset, both sides count ceil(size/fs) fragments, and the announced size is the length of the object the slices are cut from. Byte-exact reassembly for every size / fragment size / order is a value property and is NOT decided. Decided: a sample is released only on is_complete() of the buffer '
       'selected by the DATAFRAG\'s own sequence number, is_complete() is the all() of the per-fragment bitmap (not an arrival count), the buffer is removed on release and its bytes '
       'are what is released; every carried fragment sets its own bit; assemblers are keyed by the sending writer\'s guid.',
       'rustc front end + MIR; mirfacts; BitVec / BTreeMap semantics.',
@@ -134,8 +134,8 @@ claim('C15', 'parameter-identity provenance (wire id to lookup key untransformed
       'rustc front end + MIR (both feature sets); mirfacts; wrapper pairs Locator/repr::Locator, String/StringWithNul.',
       'DESIGN.md section 4 C15')
 
-claim('C06', 'interprocedural wire-taint over the receive call graph; hazard-site enumeration (range loops, allocation sizes, index/slice/cursor ops, unwrap/assert/panic, BTreeMap::range) with discharge by type rules, dominating guards and re-checked named guards; who-may-call rule for blocking primitives and provenance of the notification socket mode; division by wire value as blocking hazard',
-      'Also decided: no division or remainder by a sender-controlled value without a dominating non-zero check. Decides that every site where a wire-controlled value can reach a loop bound over a sequence-number range, an allocation size, an indexing / slicing / cursor operation, an explicit '
+claim('C06', 'interprocedural wire-taint over the receive call graph; hazard-site enumeration (range loops, allocation sizes, index/slice/cursor ops, unwrap/assert/panic, BTreeMap::range) with discharge by type rules, dominating guards and re-checked named guards; who-may-call rule for blocking primitives and provenance of the notification socket mode; division by wire value as blocking hazard; raw byte buffers handed to receive roots are taint sources',
+      'Also decided: Bytes / BytesMut / [u8] parameters of the receive roots are wire data in their own right (constant indices into them need a dominating length test or a fixed-size typed read covering them); both feature configurations in the quick tier. Also decided: no division or remainder by a sender-controlled value without a dominating non-zero check. Decides that every site where a wire-controlled value can reach a loop bound over a sequence-number range, an allocation size, an indexing / slicing / cursor operation, an explicit '
       'panic or a BTreeMap::range on the code reachable from the receive entry points (about 580 functions) is discharged by a recognised bound or by a named guard that is re-checked on every '
       'run (parser validity checks, cursor discipline, window limits, fit-to-buffer check); unknown sites and vanished guards are reported. Two open hazards are known findings (F2 GAP range '
       'materialisation, F3 allocation sized by data_size), two were repaired (F1, F4); all four were demonstrated. Also decided: no blocking channel/thread primitive is reachable from the receive entry points and the one socket the receive thread writes to whose peer the application drains is set non-blocking '
